@@ -76,6 +76,7 @@ prop('C05',
      title='Local time follows the zone data: offsets, gaps and folds',
      verus=['tz'],
      bounded=['vk_tz_find_type_bounded', 'vk_tz_from_local_classify_bounded', 'vk_tz_validate_bounded'],
+     twin=['tz'],
      uncovered=['POSIX TZ rule lookups AlternateTime::find_local_time_type / find_local_time_type_from_local and their calendar helpers (rule.rs) -- not under contract yet',
                 'Local / Cache::offset glue (reads environment and file system)', 'zones with leap-second records', 'zoneinfo database enumeration (configurations)',
                 'instant -> type lookup and exact gap/fold classification beyond the stated table bound (only bounded stand-ins)'],
